@@ -242,6 +242,33 @@ func kindIndex(k string) byte {
 }
 
 // TestChild is the isolated decoder worker (see vp.ServeChild).
+// canaryDecode round-trips a fixed valid collection (all three known
+// protocols and an unknown one) and says what differs.
+func canaryDecode() string {
+	ps := []proto{pBitswap, gsProto(1, true, false), pGateway, unknownProto(0x0930, 5)}
+	vals := make([]metadata.Protocol, len(ps))
+	for i, p := range ps {
+		vals[i] = p.mk()
+	}
+	md := metadata.Default.New(vals...)
+	b, err := md.MarshalBinary()
+	if err != nil {
+		return "encoding the valid metadata failed: " + err.Error()
+	}
+	back := metadata.Default.New()
+	if err := back.UnmarshalBinary(append([]byte(nil), b...)); err != nil {
+		return "decoding the valid metadata failed: " + err.Error()
+	}
+	if !back.Equal(md) {
+		return fmt.Sprintf("the valid metadata comes back as %v", back.Protocols())
+	}
+	again, err := back.MarshalBinary()
+	if err != nil || !bytes.Equal(again, b) {
+		return "the valid metadata re-encodes differently"
+	}
+	return ""
+}
+
 func TestChild(t *testing.T) {
 	vp.ServeChild(func(kind byte, data []byte) vp.Reply {
 		var rep vp.Reply
@@ -259,6 +286,11 @@ func TestChild(t *testing.T) {
 		}
 		if err != nil {
 			rep.Err = err.Error()
+			// a rejected input leaves nothing behind: valid metadata decoded
+			// right after it is itself
+			if why := canaryDecode(); why != "" {
+				rep.Flag, rep.Info = "valid-metadata-decodes-differently-after-a-rejected-input", why
+			}
 			return rep
 		}
 		rep.OK = true
@@ -367,6 +399,9 @@ func (d *decoder) flush() {
 			r.Violation("decode:panic:"+culprit(data)+":"+m.kind, m.key, fmt.Sprintf("decoding %x panicked: %s", trunc(data), rep.PanicMsg), nil)
 		case !rep.OK:
 			r.Outcome("error")
+			if rep.Flag != "" {
+				r.Violation("decode:"+rep.Flag+":"+m.kind, m.key, fmt.Sprintf("decoder input %x: %s", trunc(data), rep.Info), nil)
+			}
 		default:
 			r.Outcome("accepted")
 			if rep.Flag != "" {
@@ -399,7 +434,7 @@ func firstLine(s string) string {
 
 func TestCheck(t *testing.T) {
 	r := vp.New("C11", "exploration",
-		"collections: every subset of 8 distinct protocol IDs (bitswap, graphsync-filecoin, gateway, 5 unknown codes) of size 1..N in every construction order, those of size <=3 also in metadata contexts derived once and twice from the default one (WithProtocol); every variant combination (8 graphsync values, unknown payload lengths, bitswap and gateway handed over as pointer and by value) for subsets of size <=K in sorted and reversed order; collections with repeated IDs; the buffer handed to the decoder is overwritten by the caller right after the call, before the decoded metadata is compared. Decoder: for every corpus encoding every single-byte substitution, every truncation, every boundary varint written at every byte offset over 1..3 bytes, unknown-protocol headers declaring every length of the systematic set (2^k-1, 2^k, 2^k+1 for all k; the 25 values below 2^63 and below 2^64; the size limit +-12) for 6 codes x 3 tails; unknown payloads of every length 0..MaxMetadataSize; graphsync-filecoin with identity piece CIDs of 0..300 digest bytes; two-protocol out-of-order concatenations, and all byte strings of length <=2. Non-trivial: collections of >=2 protocols; decoder inputs other than the unmodified corpus.",
+		"collections: every subset of 8 distinct protocol IDs (bitswap, graphsync-filecoin, gateway, 5 unknown codes) of size 1..N in every construction order, those of size <=3 also in metadata contexts derived once and twice from the default one (WithProtocol); every variant combination (8 graphsync values, unknown payload lengths, bitswap and gateway handed over as pointer and by value) for subsets of size <=K in sorted and reversed order; collections with repeated IDs; the buffer handed to the decoder is overwritten by the caller right after the call, before the decoded metadata is compared. Decoder: for every corpus encoding every single-byte substitution, every truncation, every boundary varint written at every byte offset over 1..3 bytes, unknown-protocol headers declaring every length of the systematic set (2^k-1, 2^k, 2^k+1 for all k; the 25 values below 2^63 and below 2^64; the size limit +-12) for 6 codes x 3 tails; unknown payloads of every length 0..MaxMetadataSize; graphsync-filecoin with identity piece CIDs of 0..300 digest bytes; two-protocol out-of-order concatenations, and all byte strings of length <=2; after every rejected input the worker decodes a fixed valid collection and compares it. Non-trivial: collections of >=2 protocols; decoder inputs other than the unmodified corpus.",
 		"unknown protocols are constructed the way the decoder builds them (payload holds code, length prefix and data)",
 		"collections with repeated IDs are only required to be ID-sorted and to round-trip as a multiset (order among equal IDs is not defined by the statement)",
 		"allocation bound used: 64 KiB + 64 x input length, measured with runtime/metrics /gc/heap/allocs:bytes (span-granular for small objects)",
